@@ -652,6 +652,7 @@ fn run_case(ctx: &CaseCtx, stats: &mut Stats, out: &mut Vec<Violation>, harness:
             let text = n <= 256;
             set_use_text(text);
             set_action_budget((n + 2) as u32);
+            set_in_flight(entry, vi, input, "new_with_state");
             let mut lx = match catch_unwind(AssertUnwindSafe(|| (fac.new_with_state)(&s, fresh_state(n)))) {
                 Ok(l) => l,
                 Err(p) => {
@@ -683,6 +684,32 @@ fn run_case(ctx: &CaseCtx, stats: &mut Stats, out: &mut Vec<Violation>, harness:
             if ro.obs.panic.is_none() && !ro.obs.overflow_items {
                 if let Some(d) = div {
                     for p in &d.props {
+                        let p: &&str = if *p == "C08?" {
+                            // control: the empty input (end of input in Init, no failure before it)
+                            set_use_text(true);
+                            set_action_budget(2);
+                            let ok = match catch_unwind(AssertUnwindSafe(|| {
+                                let mut l = (fac.new_with_state)("", fresh_state(0));
+                                drive(&mut l, 0, 0)
+                            })) {
+                                Ok(r0) => {
+                                    let els0 = obs_elements(&r0.obs);
+                                    let info0 = spec_info(&specs[vi], 0, 0);
+                                    let (_, d0, _) = reference_for(&mut compiled[vi], &[], true, false, &els0, &info0, harness);
+                                    r0.obs.panic.is_none() && d0.is_none()
+                                }
+                                Err(_) => false,
+                            };
+                            set_use_text(text);
+                            set_action_budget((n + 2) as u32);
+                            stats.inc("c08_end_controls", 1);
+                            if !ok {
+                                continue;
+                            }
+                            &"C08"
+                        } else {
+                            p
+                        };
                         push_v(
                             out,
                             stats,
@@ -699,6 +726,7 @@ fn run_case(ctx: &CaseCtx, stats: &mut Stats, out: &mut Vec<Violation>, harness:
 
             // ---- other constructors (C14), also gives the read counter (C09)
             if plan.ctors && vi == 0 {
+                set_in_flight(entry, vi, input, "other constructors");
                 let prim = primary_calls[vi].as_ref().unwrap();
                 let prim_nt = strip_text(prim);
                 let counter = Cell::new(0u64);
@@ -1197,6 +1225,29 @@ fn cpu_ticks() -> u64 {
     0
 }
 
+/// What each worker thread is executing right now: (family, index, variant, input as code points,
+/// which constructor). Read by the watchdog when no progress is made, so that a hang names the
+/// definition and the input and can be replayed.
+static IN_FLIGHT: Mutex<BTreeMap<u64, (String, usize, usize, Vec<u32>, &'static str)>> = Mutex::new(BTreeMap::new());
+
+thread_local! {
+    static WORKER_SLOT: Cell<u64> = const { Cell::new(u64::MAX) };
+}
+
+fn set_in_flight(entry: &CaseEntry, variant: usize, input: &[char], ctor: &'static str) {
+    let slot = WORKER_SLOT.with(|c| c.get());
+    if let Ok(mut m) = IN_FLIGHT.try_lock() {
+        m.insert(slot, (entry.family.to_string(), entry.index as usize, variant, input.iter().map(|c| *c as u32).collect(), ctor));
+    }
+}
+
+fn clear_in_flight() {
+    let slot = WORKER_SLOT.with(|c| c.get());
+    if let Ok(mut m) = IN_FLIGHT.lock() {
+        m.remove(&slot);
+    }
+}
+
 /// Exit without running destructors or taking any lock (the stuck thread may hold some).
 fn unsafe_exit(code: i32) -> ! {
     std::process::exit(code)
@@ -1248,6 +1299,23 @@ pub fn run_batch(batch_name: &str, cases: &[CaseEntry]) {
                         .with("t", J::s("STUCK"))
                         .with("batch", J::s(batch_name))
                         .with("cases", J::Arr(what.iter().map(|s| J::s(s)).collect()))
+                        .with(
+                            "in_flight",
+                            J::Arr(match IN_FLIGHT.try_lock() {
+                                Ok(m) => m
+                                    .values()
+                                    .map(|(f, i, v, inp, ctor)| {
+                                        J::obj()
+                                            .with("family", J::s(f))
+                                            .with("index", J::i(*i))
+                                            .with("variant", J::i(*v))
+                                            .with("input", J::Arr(inp.iter().map(|c| J::Int(*c as i64)).collect()))
+                                            .with("ctor", J::s(ctor))
+                                    })
+                                    .collect(),
+                                Err(_) => vec![],
+                            }),
+                        )
                         .with("cpu_s", J::Int((cpu.saturating_sub(cpu_at_hb) / 100) as i64))
                         .to_string();
                     let _ = writeln!(std::io::stdout(), "{}", line);
@@ -1267,8 +1335,11 @@ pub fn run_batch(batch_name: &str, cases: &[CaseEntry]) {
             // give the workers a generous stack
             let builder = std::thread::Builder::new().stack_size(512 << 20);
             handles.push(builder.spawn_scoped(sc, move || loop {
+                WORKER_SLOT.with(|c| c.set(t as u64));
+                clear_in_flight();
                 let i = next.fetch_add(1, Ordering::SeqCst);
                 if i >= cases.len() {
+                    current.lock().unwrap().remove(&t);
                     break;
                 }
                 let entry = &cases[i];
